@@ -10,7 +10,8 @@ ID = 'C18'
 ENGINE = 'E2-style exhaustive interleaving of per-logical-file add_* sequences + E1 product of frame layouts'
 RULE = ("logical files: 2..3 logical files, each with one of four add_* sequences (origin first / last / explicit "
         "reference, with and without a zone and a parameter referring to it), ALL interleavings of the sequences, x "
-        "set-name assignment {distinct per logical file, all default, partially shared (only ZONE default)}; a "
+        "set-name assignment {distinct per logical file, all default, partially shared (only ZONE default)} x data "
+        "passed to write() {none, unrelated array, array overriding the equally named data set of every file}; a "
         "configuration that shares a set between logical files must raise, every other one is written and each "
         "logical file is compared with the model (inventory, identities, origins, references, rows, header order). "
         "frames: 1..3 frames with different row counts, partly equal channel names, data inline or passed to write; "
@@ -77,7 +78,10 @@ def cases(shard, tier):
         return
     seqs = [TEMPLATES[t] for t in shard['templates']]
     for il in _interleavings(seqs):
-        yield {'kind': 'lf', 'mode': shard['mode'], 'templates': shard['templates'], 'order': il}
+        # data passed to write() next to the inline arrays: nothing, an unrelated array, or an array overriding the
+        # (equally named) data set of every logical file
+        for wdata in ((None, 'extra', 'override') if shard['mode'] == 'distinct' else (None,)):
+            yield {'kind': 'lf', 'mode': shard['mode'], 'templates': shard['templates'], 'order': il, 'wdata': wdata}
 
 
 def lf_spec(c):
@@ -112,7 +116,12 @@ def lf_spec(c):
         elif e == 'PA':
             ops.append(S.op_add('parameter', f'P{i}', 'PARAM', lf=L, zones=[{'$ref': f'Z{i}'}], values=[float(i)],
                                 **sn(i, 'parameter')))
-    return {'sul': {'max_record_length': 8192}, 'ops': ops, 'write': {}}
+    sp = {'sul': {'max_record_length': 8192}, 'ops': ops, 'write': {}}
+    if c.get('wdata') == 'extra':
+        sp['write']['data'] = {'$datadict': {'EXTRA-UNUSED': S.arr_spec('float32', [2], [0x3F800000, 0x40000000])}}
+    elif c.get('wdata') == 'override':
+        sp['write']['data'] = {'$datadict': {'CHANNEL': S.arr_spec('uint16', [2], [7001, 7002])}}
+    return sp
 
 
 def frames_spec(c):
@@ -177,5 +186,5 @@ def run_case(c):
 def _brief(c):
     if c['kind'] == 'lf':
         order = ' '.join(f"L{i}.{TEMPLATES[c['templates'][i]][p]}" for i, p in c['order'])
-        return {'mode': c['mode'], 'templates': c['templates'], 'order': order}
+        return {'mode': c['mode'], 'templates': c['templates'], 'order': order, 'wdata': c.get('wdata')}
     return c
